@@ -238,6 +238,18 @@ theorem cone_normal_weight (xa ya xb yb : K) :
     (yb - ya) * (yb - ya) - (-(xb - xa)) * (xb - xa) = (xb - xa) * (xb - xa) + (yb - ya) * (yb - ya) := by
   ring
 
+/-- Circular profiles (Sphere, Torus tube, Capsule caps: `polar(ρ, alt)` about a centre, normal = the
+radius vector, lathe.rs:163-166, 175-178, 230-233): for two consecutive profile points at
+altitudes `(ca, sa)`, `(cb, sb)` the weight `⟨n, (dy, −dx)⟩` of `side_face_dot` is
+`ρ²·(ca·sb − sa·cb) = ρ²·sin(altitude step)` for the normal of either end point – positive for a
+step in (0, π).  (The capsule's body uses the normal `(1, 0)` with `dy > 0`: weight `dy`.) -/
+theorem circle_profile_weight (x0 y0 rho ca sa cb sb : K) :
+    let xa := x0 + rho * ca; let ya := y0 + rho * sa
+    let xb := x0 + rho * cb; let yb := y0 + rho * sb
+    (rho * ca) * (yb - ya) - (rho * sa) * (xb - xa) = rho * rho * (ca * sb - sa * cb) ∧
+    (rho * cb) * (yb - ya) - (rho * sb) * (xb - xa) = rho * rho * (ca * sb - sa * cb) := by
+  constructor <;> ring
+
 -- hypotheses satisfiable: the 3-4-5 rotation over ℚ
 example : ((3 : ℚ) / 5) * (3 / 5) + (4 / 5) * (4 / 5) = 1 := by norm_num
 
@@ -293,6 +305,15 @@ theorem icosa_closed : ClosedOriented (dirEdges Platonic.icosaFaces) ∧ eulerCh
 /-- Box `FACES` through `VERTS` over the 8 corners. -/
 theorem box_closed : ClosedOriented (dirEdges Platonic.boxCornerFaces) ∧ eulerChar 8 Platonic.boxCornerFaces = 2 :=
   facesOK_sound _ _ _ (by decide +kernel)
+
+/-- The rational description `tetraQ` (axis radicals √2, 1, √6) is exactly the tetrahedron's
+coordinate table. -/
+theorem tetra_q_represents : Platonic.tetraQRepresents = true := by decide +kernel
+
+/-- Tetrahedron (irrational coordinates, decided exactly through their rational coefficients):
+the table normal `−coords[opposite vertex]` of every face is parallel to the geometric normal
+`(b−a)×(c−a)`, on its side, and points away from the centre. -/
+theorem tetra_normals_outward : Platonic.tetraNormalsOutward = true := by decide +kernel
 
 /-- Octahedron: in exact arithmetic every face normal table entry `NORMS[i]` is parallel to the
 geometric normal `(b−a)×(c−a)` of face `i`, on its side, and points away from the centre
